@@ -308,7 +308,7 @@ func (nd *NodeDiff) Sort() {
 }
 
 func (nd *NodeDiff) isLessThan(nd2 *NodeDiff) bool {
-	left, right := nd.LeftNode(), nd2.LeftNode()
+	left, right := nd.sortNode(), nd2.sortNode()
 
 	if left.Tag().sortValue != right.Tag().sortValue {
 		return left.Tag().sortValue < right.Tag().sortValue
@@ -324,6 +324,33 @@ func (nd *NodeDiff) isLessThan(nd2 *NodeDiff) bool {
 	rightValue := right.Value()
 
 	return leftValue < rightValue
+}
+
+// sortNode returns what LeftNode returns, but built from fresh nodes because
+// sorting must not modify the nodes that were compared.
+func (nd *NodeDiff) sortNode() Node {
+	n := nd.Left
+
+	if IsNil(n) {
+		n = nd.Right
+	}
+
+	if len(nd.Children) == 0 {
+		return n
+	}
+
+	switch n.Tag() {
+	case TagIndividual, TagFamily, TagHusband, TagWife, TagChild:
+		// These cannot be created without a document or a family.
+		return n
+	}
+
+	children := append(Nodes{}, n.Nodes()...)
+	for _, child := range nd.Children {
+		children = append(children, child.sortNode())
+	}
+
+	return NewNode(n.Tag(), n.Value(), n.Pointer(), children...)
 }
 
 // LeftNode returns the flattening Node value that favors the left side.
